@@ -11,11 +11,13 @@ var setsMu sync.RWMutex
 
 func CompileToGetCodeSet(ctx *RuntimeContext, typeptr uintptr) (*OpcodeSet, error) {
 	initEncoder()
+	verifCacheGate("lookup", typeptr)
 	if typeptr > typeAddr.MaxTypeAddr || typeptr < typeAddr.BaseTypeAddr {
 		codeSet, err := compileToGetCodeSetSlowPath(typeptr)
 		if err != nil {
 			return nil, err
 		}
+		verifCacheReturn("slow", typeptr, 0, codeSet)
 		return getFilteredCodeSetIfNeeded(ctx, codeSet)
 	}
 	index := (typeptr - typeAddr.BaseTypeAddr) >> typeAddr.AddrShift
@@ -27,10 +29,12 @@ func CompileToGetCodeSet(ctx *RuntimeContext, typeptr uintptr) (*OpcodeSet, erro
 			return nil, err
 		}
 		setsMu.RUnlock()
+		verifCacheReturn("fast-hit", typeptr, index, codeSet)
 		return filtered, nil
 	}
 	setsMu.RUnlock()
 
+	verifCacheGate("miss", typeptr)
 	codeSet, err := newCompiler().compile(typeptr)
 	if err != nil {
 		return nil, err
@@ -39,8 +43,10 @@ func CompileToGetCodeSet(ctx *RuntimeContext, typeptr uintptr) (*OpcodeSet, erro
 	if err != nil {
 		return nil, err
 	}
+	verifCacheGate("publish", typeptr)
 	setsMu.Lock()
 	cachedOpcodeSets[index] = codeSet
 	setsMu.Unlock()
+	verifCacheReturn("fast-compiled", typeptr, index, codeSet)
 	return filtered, nil
 }
